@@ -1,4 +1,5 @@
 import LoraVerif.Model.Mac
+import LoraVerif.Props.TieA.HandleRx
 import LoraVerif.Gen.SessionStatic
 import LoraVerif.Lemmas.RtLemmas
 /-!
@@ -13,25 +14,51 @@ that a changed constant or comparison operator breaks a named theorem.
 namespace C05
 open Model
 
-private theorem oversized_int (len mp : Int) (h0 : 0 ≤ mp) (h : mp ≤ 255) :
-    Gen.SessionStatic.Session.handle_rx.oversized len mp = some (decide (len > mp + 5)) := by
-  simp (disch := omega) only [Gen.SessionStatic.Session.handle_rx.oversized, Gen.SessionStatic.MHDR_LEN,
-    Gen.SessionStatic.MIC_LEN, Rt.ck_usize, Option.bind_eq_bind, Option.bind_some, Option.pure_def, Option.some.injEq]
-  rw [Bool.eq_iff_iff]; simp only [decide_eq_true_eq]; omega
-
-/-- oversized frames (`handle_rx`): `payload_len > max_payload_len as usize + MHDR_LEN + MIC_LEN`
-is the model's `len > maxPayload + 5`, for every length and every `u8` limit -/
-theorem tieA_oversized (len maxPayload : Nat) (h : maxPayload ≤ 255) :
-    Gen.SessionStatic.Session.handle_rx.oversized len maxPayload = some (decide (len > maxPayload + 5)) := by
-  rw [oversized_int _ _ (by omega) (by omega), Option.some.injEq, Bool.eq_iff_iff]
-  simp only [decide_eq_true_eq]; omega
-
-example : Gen.SessionStatic.Session.handle_rx.oversized 65 59 = some true ∧
-    Gen.SessionStatic.Session.handle_rx.oversized 64 59 = some false := by decide
+/-! (builder N) The former `tieA_oversized` — the oversize comparison extracted as a function of its operands —
+is superseded by `tieA_handle_rx_accept` below, which ties the whole method (a changed constant or
+comparison operator breaks it, a re-spelt comparison does not). -/
 
 /-- the freshness window is the one constant of the source both generated units read -/
 theorem tieA_maxFcntGap : Gen.SessionStatic.MAX_FCNT_GAP = Gen.Session.MAX_FCNT_GAP := rfl
 
-#print axioms tieA_oversized
 #print axioms tieA_maxFcntGap
+/-- builder N — the WHOLE acceptance test: the state-passing translation of the current source of
+`Session::handle_rx` (`Gen/SessionRx.lean`, with `Session::rx2_complete`, `next_fcnt_down` and the `Uplink`
+helpers translated as well) is the model's `sessionHandleRx` on every buffer the data-frame parser accepts:
+a frame longer than `max_payload_len + MHDR_LEN + MIC_LEN` ends the receive procedure in a Class A window
+(`rx2_complete`) and is ignored on RXC; the 32-bit counter is `next_fcnt_down(fcnt_down, wire)` and the
+frame is accepted iff the MIC verifies under the session's NwkSKey and THAT counter; then, in this order:
+the answer queue is cleared (Class A only), `fcnt_down` stored, `adr_ack_cnt = 0`, the MAC commands of
+FOpts and of a port-0 payload handled (Class A only), an ACK owed for a confirmed frame,
+`SessionExpired` at `fcnt_up = 0xFFFF_FFFF`, otherwise `fcnt_up + 1`, `DownlinkReceived(fcnt)` and the
+application payload queued iff FPort > 0.  Abstract (hypotheses): parsing / MIC / decryption (inputs),
+`next_lower_datarate` and `handle_downlink_macs` (`hnl`, `hsim`: they simulate the model's and touch only
+the answer queue).  A buffer the parser rejects: `handle_rx_unparsed`.  Proved in
+`Props/TieA/HandleRx.lean` (non-vacuity: the examples there instantiate every hypothesis). -/
+theorem tieA_handle_rx_accept [Gen.SessionRx.MacOps RegionState] (S : List Int → Prop)
+    (hnl : TieA.Rx.NextLowerOk) (hsim : TieA.Rx.MacsOk S)
+    (D : Int) (gs : Gen.SessionRx.Session) (rs : RegionState) (g : Gen.SessionRx.Configuration)
+    (rx : Gen.SessionRx.RadioBuffer) (dl : List Gen.SessionRx.Downlink) (maxp snr : Int) (ign : Bool)
+    (e : Gen.SessionRx.EncryptedDataPayload)
+    (hparse : rx.as_mut_for_read.parse = some e)
+    (hw : TieA.Rx.SessWF gs) (hmax : 0 ≤ maxp ∧ maxp ≤ 255) (hwire : 0 ≤ e.fhdr.fcnt)
+    (hdec : ∀ f, Gen.SessionRx.next_fcnt_down gs.fcnt_down e.fhdr.fcnt = some f → e.validate_mic (TieA.Rx.nwkOf gs) f = true →
+      ∃ d, rx.as_mut_for_read.decrypt_in_place (some (TieA.Rx.nwkOf gs)) (some (TieA.Rx.appOf gs)) f = some d ∧ TieA.Rx.DecWF S d) :
+    (Gen.SessionRx.Session.handle_rx D gs rs g rx dl maxp snr ign).bind
+        (fun out => (TieA.Rx.respOf out.1).map (fun r => (r, TieA.Rx.sessOf out.2.1, out.2.2.1, TieA.Rx.cfgOf out.2.2.2.1, out.2.2.2.2.2.map TieA.Rx.dlOf)))
+      = (sessionHandleRx (TieA.Rx.sessOf gs) (TieA.Rx.cfgOf g) rs (TieA.Rx.dataOf gs e (TieA.Rx.decOf gs rx e)) maxp.toNat snr ign).toOption.map (TieA.Rx.expect dl D) :=
+  TieA.Rx.tieA_handle_rx_accept S hnl hsim D gs rs g rx dl maxp snr ign e hparse hw hmax hwire hdec
+
+/-- builder N — a buffer the data-frame parser rejects: `NoUpdate`, every output is the input -/
+theorem tieA_handle_rx_unparsed [Gen.SessionRx.MacOps RegionState]
+    (D : Int) (gs : Gen.SessionRx.Session) (rs : RegionState) (g : Gen.SessionRx.Configuration)
+    (rx : Gen.SessionRx.RadioBuffer) (dl : List Gen.SessionRx.Downlink) (maxp snr : Int) (ign : Bool)
+    (hparse : rx.as_mut_for_read.parse = none) :
+    Gen.SessionRx.Session.handle_rx D gs rs g rx dl maxp snr ign = some (.NoUpdate, gs, rs, g, rx, dl) :=
+  TieA.Rx.handle_rx_unparsed D gs rs g rx dl maxp snr ign hparse
+
+example : @TieA.Rx.NextLowerOk TieA.Rx.exOps ∧ @TieA.Rx.MacsOk TieA.Rx.exOps (· = []) := TieA.Rx.exOps_ok
+
+#print axioms tieA_handle_rx_accept
+#print axioms tieA_handle_rx_unparsed
 end C05
